@@ -299,6 +299,61 @@ theorem C01_csv_text_roundtrip (q : Str → Bool) (hq : ∀ f, needsQuote f = tr
   have := readAll_writeRows q hq rows hne _ 0 [] hlen
   simpa using this
 
+theorem normalize_append_noCR : ∀ (s t : Str), (13 : Nat) ∉ s → normalize (s ++ t) = s ++ normalize t
+  | [], t, _ => rfl
+  | c :: rest, t, h => by
+    have hc : c ≠ 13 := fun e => h (by simp [e])
+    have hrest : (13 : Nat) ∉ rest := fun e => h (by simp [e])
+    have ih := normalize_append_noCR rest t hrest
+    rw [List.cons_append, normalize.eq_def]
+    split
+    · rename_i heq; simp at heq
+    · rename_i heq; simp only [List.cons.injEq] at heq; exact absurd heq.1 hc
+    · rename_i heq; simp only [List.cons.injEq] at heq; exact absurd heq.1 hc
+    · rename_i c' rest' _ _ heq
+      simp only [List.cons.injEq] at heq
+      rw [← heq.1, ← heq.2, ih]
+      rfl
+
+theorem normalize_crlf (t : Str) : normalize (13 :: 10 :: t) = 10 :: normalize t := by
+  simp [normalize]
+
+theorem normalize_lf (t : Str) : normalize (10 :: t) = 10 :: normalize t := by
+  simp [normalize]
+
+theorem noCR_writeFields (q : Str → Bool) (r : List Str) (h : ∀ f ∈ r, (13 : Nat) ∉ f) : (13 : Nat) ∉ writeFields q r := by
+  intro hm
+  rcases mem_writeFields q r 13 hm with h1 | h1 | ⟨f, hf, hc⟩
+  · simp at h1
+  · simp at h1
+  · exact h f hf hc
+
+/-- reading normalises CR LF line ends: a file written with them is read like the file written with LF -/
+theorem normalize_writeRowsCRLF (q : Str → Bool) (rows : List (List Str)) (hcr : ∀ r ∈ rows, ∀ f ∈ r, (13 : Nat) ∉ f) :
+    normalize (writeRowsCRLF q rows) = normalize (writeRows q rows) := by
+  induction rows with
+  | nil => rfl
+  | cons r rs ih =>
+    have hr := noCR_writeFields q r (hcr r (by simp))
+    have ih' := ih (fun x hx => hcr x (by simp [hx]))
+    simp only [writeRowsCRLF, writeRows, List.flatMap_cons, List.append_assoc] at ih' ⊢
+    rw [normalize_append_noCR _ _ hr, normalize_append_noCR _ _ hr]
+    simp only [List.cons_append, List.nil_append]
+    rw [normalize_crlf]
+    show writeFields q r ++ 10 :: normalize (writeRowsCRLF q rs) = writeFields q r ++ normalize (10 :: writeRows q rs)
+    rw [normalize_lf]
+    simp only [writeRowsCRLF, writeRows] at ih' ⊢
+    rw [ih']
+
+/-- **C01_csv_text_roundtrip_crlf**: the round trip for files with CR LF line ends -/
+theorem C01_csv_text_roundtrip_crlf (q : Str → Bool) (hq : ∀ f, needsQuote f = true → q f = true)
+    (rows : List (List Str)) (hne : ∀ r ∈ rows, r ≠ []) (hcr : ∀ r ∈ rows, ∀ f ∈ r, (13 : Nat) ∉ f) :
+    readRows (writeRowsCRLF q rows) = some (keepRows (!q []) rows 0) := by
+  have h := C01_csv_text_roundtrip q hq rows hne hcr
+  unfold readRows at h ⊢
+  rw [normalize_writeRowsCRLF q rows hcr]
+  exact h
+
 /-- **C01_csv_file_cells_verbatim**: file text → cells. Whatever (sound) quoting policy wrote the file, the reader
 succeeds and every cell position reads the text that was written there. -/
 theorem C01_csv_file_cells_verbatim (q : Str → Bool) (hq : ∀ f, needsQuote f = true → q f = true)
